@@ -361,6 +361,22 @@ def r08_5(ctx):
         t = src(ast.Module(els, [])).replace(' ', '')
         ok = "iflayout=='blocked':" in t and 'axes=(dim,)+tuple(range(dim))' in t and 'X=X.reorder(axes)' in t
         ctx.decide('R08.5', av.qual, "blocked: component level moved to the front", ok, av.node, 'packed -> blocked is the documented level permutation')
+        # semantic: the layout handling must be executed before every exit of this branch (any format)
+        lay = [i for i, s in enumerate(els) if isinstance(s, ast.If) and 'layout' in src(s.test)
+               and any(isinstance(c, ast.Call) and isinstance(c.func, ast.Attribute) and c.func.attr == 'reorder' for c in ast.walk(s))]
+        rets = [(i, r) for i, s in enumerate(els) for r in ast.walk(s) if isinstance(r, ast.Return)]
+        if not lay:
+            ctx.violated('R08.5', av.qual, 'no layout handling on the multi-level path', els[0],
+                         'the `layout` option is not consulted on this path: blocked and packed give the same (packed) numbering')
+        else:
+            early = [r for i, r in rets if i < lay[0]]
+            if early:
+                ctx.violated('R08.5', av.qual, 'return before the layout permutation: ' + src(early[0]), early[0],
+                             'this exit returns the operator in packed level order although layout=\'blocked\' may have been requested: '
+                             'the result differs from the other formats by the packed<->blocked index permutation')
+            else:
+                ctx.met('R08.5', av.qual, 'the layout permutation precedes every exit of the multi-level path (%d returns)' % len(rets), els[lay[0]],
+                        'all formats see the same numbering')
         ok = "ifformat=='mlb':" in t and 'returnX' in t and 'returnX.asmatrix(format)' in t
         ctx.decide('R08.5', av.qual, "format 'mlb' returns the MLMatrix, every other format through asmatrix(format)", ok, av.node)
         for d in ('1', '2', '3'):
